@@ -201,7 +201,7 @@ def run_check(pid: str, tier: str, replay: Optional[str] = None, repo_root: Opti
             f.write('\n')
 
     if new_viol:
-        if not replay:
+        if not replay and write_evidence:
             os.makedirs(EVID_DIR, exist_ok=True)
             with open(viol_path, 'w') as f:
                 json.dump({'property': pid, 'tier': tier,
@@ -210,7 +210,7 @@ def run_check(pid: str, tier: str, replay: Optional[str] = None, repo_root: Opti
                 f.write('\n')
         out(f'VIOLATION property={pid} replay={viol_path if not replay else replay}')
         return 1
-    if not replay and os.path.exists(viol_path):
+    if not replay and write_evidence and os.path.exists(viol_path):
         try:
             os.remove(viol_path)
         except OSError:
